@@ -38,6 +38,16 @@ def main():
     out.append("C05-m2 is, correctly, not visible to C03 (conformant input never has an all-zero CRC); C13-m1 is caught by C13 through the")
     out.append("correspondence only (no-failing-input-found: the ID generator draws no unassigned flag bits) and with a failing input by C01.")
     out.append("")
+    out.append("Round 2 (40 further changes, two per property, by fresh agents told what round 1 had already tried) and the misses it exposed —")
+    out.append("all repaired in the generators / oracles / hooks, never by loosening a check; every seeded change is now caught by the check of the")
+    out.append("property it attacks (per-change history in `seeded/<name>/meta.json`, field `history`):")
+    for d in sorted(glob.glob(os.path.join(VERIF, "seeded", "*"))):
+        mp = os.path.join(d, "meta.json")
+        if os.path.exists(mp):
+            h = json.load(open(mp)).get("history")
+            if h:
+                out.append("* `%s`: %s" % (os.path.basename(d), h))
+    out.append("")
     out.append("## 15. As built: one paragraph per property (generated from MANIFEST.json and tools/props/*.py)")
     out.append("")
     for c in m["checks"]:
